@@ -23,6 +23,7 @@ DOC = {
         'C09.R15': 'with -L a directory is walked once, so the ignore rules applied below it must not depend on the route: the ignore stack handed to a link target is a function of the target, not of the directory that holds the link (visit_link must not pass its own stack on)',
         'C09.R14': 'the directory admission test (PathSelector::matches_dir: "could something below match?") is applied to directories only: its callers are visit_dir alone - applied to an input path or a link target that is a file it asks whether `file/...` is excluded and drops files that no pattern excludes',
         'C09.R13': 'ignore files as documented: IgnoreStack::push loads .gitignore and .fdignore of a directory independently of each other (neither is looked at only when the other is absent); IgnoreStack::matches lets the deepest ignore file that says anything decide (reverse iteration, a whitelist `!` match ends the search with "not ignored"), instead of "ignored by any level"',
+        'C09.R16': 'every input path is walked on its own at level 0: in the loop of Walk::run the only decisions that skip the spawn of visit_path are the stat failure and the directory-with-depth-0 case, each with a warning; no input path is left out because of another one',
         'C09.R12': 'input paths read from the standard input (--stdin) are taken as bytes, like paths given as arguments (OsString): no UTF-8-only reader (lines / read_line / read_to_string / String::from_utf8 + unwrap) between stdin and Path; an empty line is not a path (it would mean the working directory), an empty argument is rejected, and a line with a NUL byte is filtered out before Path::from (which unwraps CString::new) sees it',
         'C09.R11': 'marking an entry as visited (follow_links) does not cut off routes that would get further: the mark is made after the route-dependent .gitignore test, and either it records the nesting level (a directory reached again at a smaller level is read again) or it is made only after the --depth test passed; directories are marked in visit_dir after the route-specific pruning tests; a smaller level always re-visits (input paths are level 0)',
         'C09.R10': 'a --regex pattern is never joined with anchors (^...$) or with another pattern (base directory + relative pattern) without a grouping step for a top-level alternation: `^a|b$` means (^a)|(b$), which selects files that are not matched fully and makes the fixed prefix used for pruning the prefix of the first alternative only',
@@ -54,6 +55,7 @@ def run(ctx):
     r12b(ctx)
     r12c(ctx)
     r12d(ctx)
+    r16(ctx)
     r13(ctx)
     r14(ctx)
     r15(ctx)
@@ -297,6 +299,59 @@ def r12d(ctx):
     ctx.check(bool(flt) and ok, rule, b.path + '|no-nul-line', where, 'a line of the stdin list that contains a NUL byte is filtered out before it becomes a path',
               'every non-empty line of the stdin list becomes a Path, and Path::from unwraps CString::new: one line containing a NUL byte (`find -print0 | fclones group --stdin`, a corrupt list) '
               'aborts the whole run with a panic (exit 101, no report) instead of leaving out that entry alone')
+
+
+def r16(ctx):
+    """Every input path is walked, at level 0, on its own."""
+    rule = 'C09.R16'
+    lib = ctx.lib
+    from .common import describe_switch
+    cands = [lib.body(cp) for cp in lib.closures_of(W + 'run')]
+    cands = [x for x in cands if x.calls(r'Iterator::next$|Iterator>::next$') and x.calls(r'Scope::<.*>::spawn$|Scope<.*>::spawn$|::spawn$')]
+    if not cands:
+        ctx.missing(rule, 'the loop over the input paths in Walk::run')
+        return
+    b = cands[0]
+    ctx.fn(b)
+    N = b.calls(r'Iterator::next$|Iterator>::next$')[0]
+    S = {c.bb for c in b.calls(r'Scope::<.*>::spawn$|Scope<.*>::spawn$|::spawn$')}
+    # the Some arm of next()
+    some_t = None
+    for (bbx, idx, what) in b.operand_uses(N.dest[0]):
+        if what[0] == 'stmt' and what[1]['rv']['k'] == 'disc':
+            for (b2, i2, w2) in b.operand_uses(what[1]['p'][0]):
+                if w2[0] == 'switch':
+                    some_t = dict(zip(w2[1]['vals'], w2[1]['tgts'])).get(1)
+    if some_t is None:
+        ctx.missing(rule, 'match on roots.next()', N.where())
+        return
+    body_blocks = b.reachable(some_t, avoid=[N.bb]) | {some_t}
+    bad = None
+    n = 0
+    for d in sorted(body_blocks):
+        t = b.blocks[d]['term']
+        if t['k'] != 'switch' or b.blocks[d]['cleanup']:
+            continue
+        succ = [x for x in dict.fromkeys(t['tgts']) if b.blocks[x]['term']['k'] != 'unreach']
+        to_spawn = [x for x in succ if x in S or S & b.reachable(x, avoid=[N.bb])]
+        skip = [x for x in succ if x not in S and N.bb in b.reachable(x, avoid=list(S))]
+        pure_skip = [x for x in skip if not (x in S or S & b.reachable(x, avoid=[N.bb]))]
+        if not (to_spawn and pure_skip):
+            continue
+        n += 1
+        kind, name = describe_switch(b, d)
+        fields = backslice(b, [t['op']]).field_names()
+        warned = all(any(c.matches(r'log_warn$|LogExt>::warn$') and c.bb in (b.reachable(x, avoid=[N.bb]) | {x}) for c in b.calls()) for x in pure_skip)
+        okd = (kind in ('disc-call', 'disc', 'call') and re.search(r'fs::metadata$|symlink_metadata$|Metadata::is_dir$|FileId::new$', name)) or (kind == 'cmp' and 'depth' in fields) \
+            or (kind in ('field', 'disc-field') and name in ('depth', 'one_fs'))
+        if not (okd and warned) and bad is None:
+            bad = (d, kind, name, warned)
+    ctx.check(bad is None, rule, b.path + '|every-root-walked', (b.where(b.blocks[bad[0]]['term']['line']) if bad else N.where()),
+              'every input path is handed to visit_path at level 0 (%d decisions skip one: unreadable path / directory with --depth 0, each with a warning)' % n,
+              'an input path can be skipped by a decision on %s `%s`%s: input paths are walked at level 0, where the hidden test, the ignore files of the parents and the depth budget of an enclosing '
+              'input path do not apply - leaving one out because another input path "covers" it loses `dir/.git`, `dir/ignored`, or `dir/a/b/c` under `--depth 1 dir dir/a/b`'
+              % ((bad[1], bad[2], '' if bad[3] else ' without a warning') if bad else ('', '', '')))
+    ctx.floor(rule, 'skip decisions in the loop over the input paths', n, 2, b.where())
 
 
 def r12c(ctx):
